@@ -11,6 +11,7 @@ TRUSTED = [
     'net/http (ReadRequest), encoding/base64, gorilla/websocket, uTLS (ClientHello generation), common.Copy over a real TCP stack (half-close, RST) are black boxes sampled by the run',
 ]
 ASSUMPTIONS = [
+    'ordering window of goWeb (prefix replay before the relay starts): the harness owns the redirect target connection and parks the FIRST Write call on it until a second Write call arrives (served first) or every other goroutine of that connection (the dispatching goroutine and everything it started, read off runtime.Stack) has finished or is parked in a scripted Read; no sleep takes part in the decision. On the unchanged code no second writer exists before the prefix is written, so the schedule is the natural one',
     'exactly-one-outcome oracle: per connection the redirect target is dialled at most once (also after a session has ended), and when it is dialled the peer receives nothing but the target\'s bytes; scenarios: one per early exit of dispatchConnection (first-packet error with and without redirect, AuthFirstPacket error, unknown encryption byte, admin and proxy finishHandshake with a failing Write on the peer connection (direct transport), admin session ended by a hang-up, unknown proxy method, unauthorised UID; a refused GetSession is exercised by C07), dial failure and first-write failure of goWeb',
     'forged first packets (never a server byte): each of the 14 small-order X25519 encodings and the 5 unmasked variants as ephemeral value, block sealed under the all-zero key, direct and WebSocket transport',
     'a net.Conn delivers the bytes the peer sent in order, in arbitrary non-empty pieces, then EOF or silence (read_full_seg_flat proves the model independent of the segmentation)',
@@ -369,6 +370,16 @@ def build_cases(ctx, packets):
         head = G + b'X: ' + b'b' * (total - len(G) - 3 - 2 - 2) + b'\r\n' + b'\r\n'
         assert len(head) == total
         add('http/head-at-buffer-edge', head + b'BODY')
+    # E2. the ordering window of goWeb: the peer has sent MORE than the prefix readFirstPacket consumed (1 / 5 / 3000 bytes)
+    #     before the relay starts; the harness parks the first Write on the target connection (c09_rig_test.go) so that a
+    #     relay started too early overtakes the replayed prefix.  The target must still see the peer's stream in order.
+    tail = bytes((i * 11 + 5) % 253 for i in range(1500))
+    add('relay-order/unrecognised-1', b'\x05' + tail)
+    add('relay-order/unrecognised-1', b'SSH-2.0-OpenSSH_9.6\r\n' + tail[:300])
+    add('relay-order/tls-oversize-5', b'\x16\x03\x03\x40\x00' + tail)
+    add('relay-order/tls-oversize-5', b'\x16\x03\x01\xff\xff' + tail[:64])
+    add('relay-order/http-overlong-3000', b'GET /' + b'a' * 3200 + b' HTTP/1.1\r\nHost: x\r\n\r\n' + tail[:200])
+    add('relay-order/http-overlong-3000', b'GET / HTTP/1.1\r\nX-Pad: ' + b'p' * 2990 + tail[:100])
     # F. random streams
     for _ in range(60 if quick else 1500):
         n = rng.choice([1, 2, 5, 6, 50, 600, 2999, 3000, 3001, 4000])
@@ -383,7 +394,7 @@ def build_cases(ctx, packets):
     for cat, s, st, may, pwfail in streams:
         segs = segmentations(rng, s, quick)
         scripts = target_scripts(rng, len(s))
-        heavy = cat.startswith(('genuine', 'http', 'tls-record/complete', 'cloak/replayed')) or (cat.startswith('forged') and '/zero' in cat)
+        heavy = cat.startswith(('genuine', 'http', 'tls-record/complete', 'cloak/replayed', 'relay-order')) or (cat.startswith('forged') and '/zero' in cat)
         combos = []
         if heavy or not quick:
             # all segmentations with rotating scripts/endings, plus the two failure scripts (plus, thorough: all scripts)
@@ -442,6 +453,14 @@ def relaxed(c):
     return c['end'] == 'eof' or (c['tclose'] and c['after'] < len(unhx(c['meta']['stream'])))
 
 
+def sched_note(o):
+    t = o.get('tsched', '')
+    if 'second-write-served-first' in t:
+        return ('; schedule: the first Write on the target connection (the replayed prefix) was parked by the harness, a second writer '
+                '(the relay) arrived and was served first [%s]' % t)
+    return ''
+
+
 def oracle(c, o):
     """The property text evaluated on what the implementation did.  Returns (signature, message) or None."""
     s = unhx(c['meta']['stream'])
@@ -481,8 +500,9 @@ def oracle(c, o):
     if not reply.startswith(fpeer):
         return 'peer-mismatch', 'peer received bytes the target never sent: %s...' % fpeer[:40].hex()
     if not s.startswith(ftgt):
-        return 'target-mismatch', 'target received %d bytes that are not a prefix of the peer stream (first difference at %d)' % (
-            len(ftgt), next((i for i in range(min(len(ftgt), len(s))) if ftgt[i] != s[i]), min(len(ftgt), len(s))))
+        k = next((i for i in range(min(len(ftgt), len(s))) if ftgt[i] != s[i]), min(len(ftgt), len(s)))
+        return 'target-mismatch', 'target received %d bytes that are not a prefix of the peer stream (first difference at %d: target got %s.., the peer sent %s..)%s' % (
+            len(ftgt), k, ftgt[k:k + 8].hex(), s[k:k + 8].hex(), sched_note(o))
     complete = py_complete(s)
     if c['dial'] == 'fail' and cls == 'web':
         if complete and o['pc'] != '1':
@@ -497,7 +517,7 @@ def oracle(c, o):
             return 'no-redirect', 'peer sent a complete first record / request / unrecognisable bytes but was not relayed to the redirect target (%s)' % cls
         if not relaxed(c):
             if tgt != s:
-                return 'target-mismatch', 'target received %d of the %d bytes the peer sent (consumed prefix %s bytes)' % (len(tgt), len(s), o['first'])
+                return 'target-mismatch', 'target received %d of the %d bytes the peer sent (first write %s bytes)%s' % (len(tgt), len(s), o['first'], sched_note(o))
             want = reply if len(s) >= c['after'] else b''
             if peer != want:
                 return 'peer-mismatch', 'peer received %d bytes, the target replied %d' % (len(peer), len(want))
@@ -679,9 +699,12 @@ def correspondence(ctx, verdict, pr):
     # report oracle failures: smallest per signature
     seen = {}
     for n, c, o, (sig, msg) in sorted(fails, key=lambda f: (f[0], len(f[1]['chunks']))):
-        if sig in seen:
+        key = sig
+        if sig == 'target-mismatch':       # one per consumed-prefix class (1 / 5 / buffer size / whole packet)
+            key = (sig, (parsed.get(c['id'], (None, {}))[1] or {}).get('n'))
+        if key in seen or len(seen) >= 6:
             continue
-        seen[sig] = 1
+        seen[key] = 1
         verdict.oracle_failure(sig, 'C09 oracle [%s]: %s (case %s: %s, %d-byte stream, segmentation %s, target script %s, end=%s)' % (
             sig, msg, c['id'], c['meta']['cat'], n // 2, c['meta']['seg'], c['meta']['script'], c['end']),
             dict(case=c, state=states[c['st']], implementation=o, model=model.get(c['id']),
